@@ -182,6 +182,8 @@ def phase_drive(prop, exe, tier, seed, scripts, replay, scratch):
     trace = os.path.join(scratch, "trace.ndjson")
     stats = os.path.join(scratch, "stats.json")
     cmd = [exe, "-prop", prop["driver"], "-tier", tier, "-seed", str(seed), "-out", trace, "-stats", stats]
+    if prop.get("isolate"):
+        cmd += ["-isolate"]
     if scripts:
         cmd += ["-scripts", scripts]
     if replay:
